@@ -359,6 +359,20 @@ def whole_through_helpers(idx, fi, expr, va, asg, depth=0):
     if depth > 2:
         return False
     for c in [n for n in ast.walk(expr) if isinstance(n, ast.Call)]:
+        # a method of the operator itself: inside it the collection is `self.<va>`
+        if isinstance(c.func, ast.Attribute) and isinstance(c.func.value, ast.Name) and c.func.value.id == "self" and fi.enc_cls is not None:
+            m = idx.find_method(fi.enc_cls, c.func.attr)
+            if m is not None and m is not fi:
+                casg = df.assignments(m.node)
+                rets = [ret.value for ret in df.returns(m.node) if ret.value is not None]
+                if any(depends_on_whole(rv, va, casg) for rv in rets):
+                    # running totals (`accumulate`): only the last entry covers every part
+                    running = any(isinstance(x, ast.Call) and ast.unparse(x.func).endswith("accumulate") for rv in rets for x in ast.walk(df.resolve_value(m.node, rv) if isinstance(rv, ast.Name) else rv))
+                    par = getattr(c, "_parent", None)
+                    last = isinstance(par, ast.Subscript) and par.value is c and ast.unparse(par.slice) == "-1"
+                    if not running or last:
+                        return True
+            continue
         r = idx.resolve_expr(fi.module, c.func, fi)
         if r is None or r.kind != "funcs" or getattr(r.val[-1], "rule", None) is not None:
             continue
